@@ -237,6 +237,11 @@ func main() {
 								run.Violation("order|"+class(l), fmt.Sprintf("Resolve(%q) depends on template order: %v vs %v", s, res[0], res[1]),
 									map[string]any{"Link": s, "Perm": 1})
 							}
+							if (res[0][0] == "user" || res[0][0] == "join") && res[0][1] == "" {
+								// whatever the shape of the link: an answer without a username / without a token is not an answer
+								run.Violation("empty-"+res[0][0]+"|"+class(l), fmt.Sprintf("Resolve(%q) resolves to an empty %s", s, map[string]string{"user": "username", "join": "invite token"}[res[0][0]]),
+									map[string]any{"Link": s, "Perm": 0})
+							}
 							if res[0][0] == "nil-without-error" || strings.HasPrefix(res[0][0], "other:") {
 								run.Violation("result-kind|"+res[0][0]+"|"+class(l), fmt.Sprintf("Resolve(%q) returned %s", s, res[0][0]),
 									map[string]any{"Link": s, "Perm": 0})
